@@ -64,9 +64,10 @@ class Builder:
         self.n_mat = draw(st.integers(2, 4))
         self.deck['materials'] = [
             {'id': 1, 'entries': [('13027', '1.0')]},
-            {'id': 2, 'entries': [('1001', '2'), ('8016', '1')]},
+            {'id': 2, 'entries': [('1001', '2'), ('8016', '1'), 'nlib=70c']},
             {'id': 3, 'entries': [('26056', '-0.9'), ('6000', '-0.1')]},
-            {'id': 4, 'entries': [('92235.70c', '0.05'), ('92238.70c', '0.95')]},
+            {'id': 4, 'entries': ['gas=0', ('92235.70c', '0.05'),
+                                  ('92238.70c', '0.95')]},
         ][:self.n_mat]
 
     # -- ids ---------------------------------------------------------------
